@@ -1020,4 +1020,32 @@ def rule_c18_r1_order(model: Model) -> RuleResult:
                    "registered for such a type is never asked, and the structural converter wins")
         else:
             r.ok()
+    # handlers (call-level and registered) are asked about *classes*: the special forms of typing (Union, Literal, Annotated ...)
+    # are dispatched before any handler loop is reached - a handler written as the documentation shows (`issubclass(ty, Foo)`)
+    # raises TypeError when handed `typing.Union`
+    cfg_ = cfg_of(model, func)
+    h_loops = [n for n in cfg_.live_nodes() if n.kind == 'iter' and (
+        unparse(n.ast.iter) in ('handlers',) or any(model.resolve(x, func.module, func) == gh for x in ast.walk(n.ast.iter)))]  # type: ignore[attr-defined]
+    if h_loops:
+        reached = []
+        try:
+            for (kd, _check, _doc) in catalogue():
+                special = isinstance(kd.origin, TypeV) and kd.origin.special is not None and kd.origin.kclass is None
+                if not special:
+                    continue
+                it3 = Interp(model, func)
+                it3.run(kd)
+                for lp in h_loops:
+                    if lp.id in it3.iter_log:
+                        reached.append((kd.name, lp))
+        except Undecided as e:
+            raise AnalysisError(f"{func.loc()}: dispatch walk undecided: {e}")
+        r.instances += 1
+        r.sample({'special forms that reach a handler loop': sorted({k for k, _ in reached})})
+        if reached:
+            r.fail(MK, f"handlers are asked about the special form {sorted({k for k, _ in reached})[:4]}", func.loc(reached[0][1].ast),
+                   "a handler receives `typing.Union` / `typing.Literal` instead of a class: one written with issubclass(ty, ...) raises "
+                   "TypeError while the converter of a union is built, so Optional[...] fields stop converting whenever such a handler is in effect")
+        else:
+            r.ok()
     return r
